@@ -86,11 +86,23 @@ func genC03(r *Rand, tier string, ord int) *Trial {
 				n, w, t.Kind = r.Range(1100, 1500), r.Range(2, 5), "generated-many-thousand"
 			}
 		}
+		wide := !many && r.P(0.0012)
+		if wide { // widths around powers of two up to 2^17 (see gen.go, scale)
+			w, n, t.Kind = scaleWidth(r), r.Range(1, 4), "generated-wide"
+		}
 		ref = genRefSeq(r, w)
-		if r.P(0.3) {
+		if r.P(0.3) && !wide {
 			ref = mutate(r, ref, profFull, 0)
 		}
-		q = genAln(r, ref, alnSpec{W: w, N: n, Prof: -1, SNP: 0.15, Prefix: "q", AllN: 0.05, Dup: 0.05})
+		if wide {
+			q = genAln(r, ref, alnSpec{W: w, N: n, Prof: profN, SNP: 0.002, Prefix: "q"})
+			for i := range q.Seqs {
+				q.Seqs[i] = tailSNPs(r, ref, q.Seqs[i])
+			}
+			lay.Width = r.PickInt(0, 0, 60, 70, 80)
+		} else {
+			q = genAln(r, ref, alnSpec{W: w, N: n, Prof: -1, SNP: 0.15, Prefix: "q", AllN: 0.05, Dup: 0.05})
+		}
 		if r.P(0.1) {
 			ref = strings.ToLower(ref)
 		}
@@ -98,6 +110,9 @@ func genC03(r *Rand, tier string, ord int) *Trial {
 	t.Case = Case{Cmd: "snps", Files: map[string]string{"ref": ">ref\n" + ref + "\n", "query": q.FASTA(lay)}}
 	t.Case.Opts.HardGaps = hard
 	t.Runs = genRunCfgs(r, 3)
+	if t.Kind == "generated-wide" {
+		wideRuns(t.Runs)
+	}
 	if strings.HasPrefix(t.Kind, "generated-many") {
 		n := strings.Count(t.Case.Files["query"], ">")
 		scaleHorizon(t.Runs, 8*n)
